@@ -74,7 +74,7 @@ def coq_host(tree):
         xs = '[' + ';'.join('(%s,%s)' % (coq_bytes(a), coq_bytes(v)) for a, v in sorted(n['xattrs'].items())) + ']'
         mode = 0o777 if k == 'lnk' else n['mode']
         rows.append('(%d, mkInode %s %d %d %d %s)' % (i, kind, mode, n['uid'], n['gid'], xs))
-    return '(mkHost [%s] %d)' % (';\n '.join(rows), tree.next)
+    return '(mkHost [%s] %d [])' % (';\n '.join(rows), tree.next)
 
 # ------------------------------------------------------------------ requests
 def hx(b): return b.hex() if b else '-'
@@ -92,7 +92,7 @@ def op_line(o):
     if k == 'lookup': a = [ref_h(o['p']), hx(o['name'])]
     elif k == 'forget': a = [ref_h(o['i']), o['count']]
     elif k == 'getattr': a = [ref_h(o['i']), oref_h(g('h'))]
-    elif k == 'setattr': a = [ref_h(o['i']), oref_h(g('h')), o['valid'], o['mode'], o['uid'], o['gid'], o['size']]
+    elif k == 'setattr': a = [ref_h(o['i']), oref_h(g('h')), o['valid'], o['mode'], o['uid'], o['gid'], o['size'], g('atime', 1000000), g('ansec', 0), g('mtime', 2000000), g('mnsec', 0)]
     elif k == 'mkdir': a = [ref_h(o['p']), hx(o['name']), o['mode'], o['umask'], o['uid'], o['gid']]
     elif k == 'mknod': a = [ref_h(o['p']), hx(o['name']), o['mode'], o['rdev'], o['umask'], o['uid'], o['gid']]
     elif k == 'create': a = [ref_h(o['p']), hx(o['name']), o['mode'], o['umask'], o['flags'], o['fuse_flags'], o['uid'], o['gid']]
@@ -124,7 +124,7 @@ def op_coq(o):
     if k == 'lookup': return '(SLookup %s %s)' % (ref_c(o['p']), B(o['name']))
     if k == 'forget': return '(SForget %s %d)' % (ref_c(o['i']), o['count'])
     if k == 'getattr': return '(SGetattr %s %s)' % (ref_c(o['i']), oref_c(g('h')))
-    if k == 'setattr': return '(SSetattr %s %s %d %d %d %d %d)' % (ref_c(o['i']), oref_c(g('h')), o['valid'], o['mode'], o['uid'], o['gid'], o['size'])
+    if k == 'setattr': return '(SSetattr %s %s %d %d %d %d %d %d %d %d %d)' % (ref_c(o['i']), oref_c(g('h')), o['valid'], o['mode'], o['uid'], o['gid'], o['size'], g('atime', 1000000), g('ansec', 0), g('mtime', 2000000), g('mnsec', 0))
     if k == 'mkdir': return '(SMkdir %s %s %d %d %d %d)' % (ref_c(o['p']), B(o['name']), o['mode'], o['umask'], o['uid'], o['gid'])
     if k == 'mknod': return '(SMknod %s %s %d %d %d %d %d)' % (ref_c(o['p']), B(o['name']), o['mode'], o['rdev'], o['umask'], o['uid'], o['gid'])
     if k == 'create': return '(SCreate %s %s %d %d %d %d %d %d)' % (ref_c(o['p']), B(o['name']), o['mode'], o['umask'], o['flags'], o['fuse_flags'], o['uid'], o['gid'])
